@@ -6,7 +6,10 @@ LEAN_PROPS = ["FcpptProofs.Props.C12"]
 HARNESS = {"src": "harness/c12.cpp", "repo_srcs": ["libs/core/src/insert_extract_locale.cpp"]}
 TIE = ("hand-written model (FcpptModel/Model/C12.lean: libstdc++ istream state machine + fcppt::parse::detail::stream + "
        "character-level parsers) + differential correspondence against the real templates over std::basic_istringstream<char|wchar_t> "
-       "and a failure-injecting streambuf; the istream state bits are compared after every operation")
+       "and a failure-injecting streambuf; the istream state bits AND the stored location (stream::location_, read through a member "
+       "pointer) are compared after every operation; the backtracking combinators (alternative, optional, repetition, repetition_plus, "
+       "not_, fatal, sequence, basic_string, skipper repetition/sequence/space) are built at run time from the real templates and run "
+       "over a basic_stream wrapper that records every get_char/get_position/set_position call")
 RULE = ("exh K A|B L PREFIX: digest over all texts of length L over {a,\\n,space,tab} with that prefix of a fixed history "
         "(A: read through saving every position, probe end of input, rewind to every saved position; B: every ordered pair of "
         "rewinds and every rewind from the end-of-input state), each observation = value + eof/fail/bad bits; exhaustive for "
@@ -16,7 +19,14 @@ RULE = ("exh K A|B L PREFIX: digest over all texts of length L over {a,\\n,space
         "seeded long histories on random texts up to length 300 (newline-heavy, all byte values / wide code points), with "
         "parser calls, failing streams and fabricated positions. perr: literal/char_set/char_ and the skippers after every "
         "prefix of every text of length <= 3 (thorough: 4) — only the Line l:c numbers of the message are compared. "
-        "weight(exh) = number of texts, weight(seqs) = number of sequences; an op is non-trivial unless it is reset/open.")
+        "gx K L FA SK GR: digest over all texts of length L, started after k = 0..L+1 reads, of phrase_parse(GR, stream, SK) over "
+        "the recording stream: message skeleton + fatal bit, every basic_stream call with answer, state bits, stored location (and the "
+        "argument of set_position), then pos, get; 414 systematic grammars x 3-8 skippers, L <= 3..5 quick / 5..6 thorough, failing "
+        "buffers at every budget. ge: phrase_parse_stream / parse_stream / grammar_parse_stream on istreams read from before, plain "
+        "and failing at every budget. poseq/posout: == on all ordered pairs of 24 positions (same object included), << as exact text. "
+        "gp: random grammars on random texts after random histories. "
+        "weight(exh) = number of texts, weight(seqs) = number of sequences, weight(gx) = texts x starts; an op is non-trivial unless "
+        "it is reset/open.")
 ASSUMPTIONS = [
     "std::basic_istream<Ch> get/tellg/seekg/clear/sentry and basic_stringbuf seekoff/seekpos behave as modelled in IStream "
     "(libstdc++ 12; validated on every run: rdstate() is part of every compared observation)",
@@ -29,7 +39,9 @@ ASSUMPTIONS = [
     "precondition); fabricated positions are correspondence-only",
 ]
 TRUSTED = [
-    "harness/c12.cpp (incl. its streambuf and the extraction of 'Line l:c' from messages) and the line/digest protocol",
+    "harness/c12.cpp + harness/c12_grammar.cpp (incl. the streambuf, the recording basic_stream wrapper, the type-erased skipper "
+    "nodes, the reduction of messages to skeletons / 'Line l:c' numbers, the member-pointer read of stream::location_) and the "
+    "line/digest protocol",
     "g++ 12 + ASan/UBSan as witness for memory safety of the instantiations",
 ]
 
@@ -79,6 +91,8 @@ def weight(op):
         return 4 ** (int(t[3]) - pre)
     if t[0] == "seqs":
         return nseqs(int(t[4]))
+    if t[0] == "gx":
+        return 4 ** int(t[2]) * (int(t[2]) + 2)
     return 1
 
 
@@ -89,6 +103,14 @@ def refine(op):
         return [f"walk {t[1]} {t[2]} {txt(pre + s)}" for s in all_texts(int(t[3]) - len(pre))]
     if t[0] == "seqs":
         return [f"hist {t[1]} {t[2]} {t[3]} {','.join(s) if s else '-'}" for s in all_seqs(int(t[4]))]
+    if t[0] == "gx":
+        L = int(t[2])
+        return [f"gp {t[1]} {txt(x)} {t[3]} {','.join(['g'] * k) if k else '-'} {t[4]} {t[5]}"
+                for x in all_texts(L) for k in range(L + 2)]
+    if t[0] == "gp" and t[4] != "-":
+        # the same parse with shorter prefix histories first
+        o = t[4].split(",")
+        return [f"gp {t[1]} {t[2]} {t[3]} {','.join(o[:k]) if k else '-'} {t[5]} {t[6]}" for k in range(len(o))]
     if t[0] == "walk":
         n = 0 if t[3] == "-" else len(t[3].split(","))
         return [f"hist {t[1]} {t[3]} - {','.join(script_ops(t[2], n))}"]
@@ -203,6 +225,17 @@ def history_case(r, kind, allow_fail, allow_raw, maxlen, nops):
                     st["i"] = saved[j]
             else:
                 ops.append(f"set {len(saved) + r.below(3)}")
+        elif q >= 90 and q < 94 and not st["dead"]:
+            # a whole grammar in the middle of the history; the generator only needs the index afterwards, and
+            # takes it from a grammar whose consumption it can predict: repetition of a character set
+            cs = sorted(set(r.choice(ALPHA + [98]) for _ in range(r.range(1, 3))))
+            g = r.choice(["rep.cset:{c}", "seq.rep.cset:{c}.opt.lit:98", "alt.seq.rep.cset:{c}.lit:98.rep.cset:{c}",
+                          "seq.rep.cset:{c}.not.lit:98"]).format(c=txt(cs))
+            ops.append(f"gpar eps {g}")
+            while st["i"] < n and t[st["i"]] in cs and not st["dead"]:
+                read()
+            if fa is not None and st["i"] < n and st["reads"] >= fa:
+                st["dead"] = True
         elif q < 94 or not allow_raw:
             p = r.choice(["lit", "cset", "slit", "scset", "char"])
             cur = t[st["i"]] if st["i"] < n else r.choice(ALPHA)
@@ -238,6 +271,126 @@ def perr_ops(kind, maxlen, fa_list):
                         for a in args:
                             ops.append(f"perr {kind} {txt(t)} {fa} {pre} {p} {a}")
     return ops
+
+
+# ------------------------------------------------------------------ grammars (clients of get/set_position)
+
+G_LEAVES = ["lit:97", "lit:10", "cset:32,9", "any", "str:97,10", "str:10,97,97"]
+G_SMALL = ["lit:97", "lit:10", "any"]
+G_UNARY = ["opt", "rep", "plus", "not", "fatal"]
+G_BINARY = ["seq", "alt"]
+SKIPPERS = ["eps", "rep.cset:32,9", "rep.lit:10"]
+# the library's own skipper::space (repetition over a concrete char_set skipper: space, newline, tab)
+SKIPPER_SPACE = "space"
+# skippers that can fail, or whose repetition body fails after having consumed
+SKIPPERS_X = ["lit:32", "rep.seq.lit:32.lit:9", "seq.rep.lit:32.rep.lit:10", "cset:-"]
+
+
+def g_consumes(toks, i=0):
+    """(consumes, next index) of the prefix-notation grammar starting at toks[i]"""
+    n = toks[i].split(":")[0]
+    if n in ("any", "lit", "cset", "k2"):
+        return True, i + 1
+    if n == "k1":
+        return False, i + 1
+    if n == "str":
+        return toks[i] != "str:-", i + 1
+    if n in ("seq", "alt"):
+        a, j = g_consumes(toks, i + 1)
+        b, j = g_consumes(toks, j)
+        return (a or b) if n == "seq" else (a and b), j
+    a, j = g_consumes(toks, i + 1)
+    return (a if n in ("plus", "fatal") else False), j
+
+
+def g_wf(g):
+    toks = g.split(".")
+    for i, t in enumerate(toks):
+        if t in ("rep", "plus") and not g_consumes(toks, i + 1)[0]:
+            return False
+    return True
+
+
+def grammar_sets():
+    """(core, wide): systematic grammars.  core: every combinator over every leaf, every binary pair of leaves, the
+    hand-picked ones that need a specific shape; wide: all terms of depth 3 over the small leaf set."""
+    core = []
+    core += [f"{u}.{l}" for u in G_UNARY for l in G_LEAVES]
+    core += [f"{b}.{l}.{r}" for b in G_BINARY for l in G_SMALL + ["str:97,10"] for r in G_SMALL + ["str:97,10"]]
+    core += [
+        # left alternative fails after consuming across a newline / at the end of input; both fail (two locations)
+        "alt.seq.lit:97.seq.lit:10.lit:97.seq.lit:97.lit:10",
+        "alt.seq.lit:97.lit:97.alt.seq.lit:97.lit:10.lit:97",
+        "alt.fatal.lit:97.lit:10", "alt.lit:97.fatal.lit:10", "alt.seq.lit:97.fatal.lit:97.any",
+        "alt.str:97,10,97.str:97,10", "alt.str:97,10.str:97",
+        # repetition whose body fails half way; the trailing skipper is consumed before the element fails
+        "rep.seq.lit:97.lit:10", "rep.seq.lit:97.opt.lit:10", "rep.alt.seq.lit:97.lit:97.lit:10",
+        "rep.seq.lit:97.rep.lit:10", "rep.seq.lit:97.fatal.lit:10", "plus.seq.any.not.lit:10",
+        "rep.seq.not.lit:10.any", "seq.rep.lit:97.lit:10", "seq.rep.cset:97,10.any",
+        # look-ahead
+        "not.not.lit:97", "seq.not.lit:10.any", "seq.not.seq.lit:97.lit:10.any", "not.seq.any.seq.any.any",
+        "not.rep.any", "not.fatal.lit:97", "opt.seq.lit:97.seq.lit:10.lit:97", "opt.fatal.seq.lit:97.lit:10",
+        "seq.opt.lit:97.seq.opt.lit:10.opt.lit:97", "opt.opt.lit:97", "opt.rep.lit:10",
+        "seq.opt.seq.lit:97.lit:97.seq.lit:97.lit:10",
+        "rep.rep.lit:97" if False else "rep.plus.lit:97", "plus.plus.lit:10",
+        "alt.not.any.seq.any.not.any", "seq.rep.any.not.any", "str:-", "seq.str:-.lit:97", "alt.str:-.lit:97",
+        "cset:-", "cset:97,10,32,9",
+        # fixed grammars whose children are held by value (k1) / by fcppt::unique_ptr (k2), not by reference
+        "k1", "k2", "alt.k2.k1", "rep.k2", "not.k1",
+    ]
+    wide = []
+    for u in G_UNARY:
+        for b in G_BINARY:
+            for l in G_SMALL:
+                for r in G_SMALL:
+                    wide.append(f"{u}.{b}.{l}.{r}")
+    for b in G_BINARY:
+        for u in G_UNARY:
+            for l in G_SMALL:
+                for r in G_SMALL:
+                    wide.append(f"{b}.{u}.{l}.{r}")
+                    wide.append(f"{b}.{l}.{u}.{r}")
+    for u in G_UNARY:
+        for v in G_UNARY:
+            for l in G_SMALL:
+                wide.append(f"{u}.{v}.{l}")
+    seen = set()
+    out = ([], [])
+    for k, gs in enumerate((core, wide)):
+        for g in gs:
+            if g not in seen and g_wf(g):
+                seen.add(g)
+                out[k].append(g)
+    return out
+
+
+def rand_grammar(r, depth):
+    q = r.below(100)
+    if depth == 0 or q < 25:
+        k = r.below(8)
+        if k < 3:
+            return f"lit:{r.choice([97, 10, 32, 98])}"
+        if k == 3:
+            return "any"
+        if k < 6:
+            return "cset:" + txt(sorted(set(r.choice(ALPHA + [98]) for _ in range(r.range(0, 3)))))
+        return "str:" + txt([r.choice([97, 10, 97, 32]) for _ in range(r.range(0, 3))])
+    if q < 60:
+        return f"{r.choice(G_BINARY)}.{rand_grammar(r, depth - 1)}.{rand_grammar(r, depth - 1)}"
+    u = r.choice(G_UNARY)
+    for _ in range(20):
+        g = rand_grammar(r, depth - 1)
+        if u not in ("rep", "plus") or g_consumes(g.split("."))[0]:
+            return f"{u}.{g}"
+    return f"{u}.any"
+
+
+def rand_skipper(r):
+    return r.choice(SKIPPERS + SKIPPERS + SKIPPERS_X + ["rep.cset:32,9,10", "rep.lit:32", SKIPPER_SPACE])
+
+
+def gx_ops(kind, grammars, skippers, lengths, fa="-"):
+    return [f"gx {kind} {L} {fa} {sk} {g}" for g in grammars for sk in skippers for L in lengths]
 
 
 def batches(rng, tier):
@@ -279,11 +432,86 @@ def batches(rng, tier):
         for t in ([c], [c, 97], [97, c, 10, c]):
             ops.append(f"hist w {txt(t)} - g,p,g,p,g,p,s1,g,p,s0,p")
             ops.append(f"perr w {txt(t)} - g lit 97")
+            ops.append(f"gp w {txt(t)} - - rep.lit:{c} rep.alt.seq.lit:10.lit:{c}.seq.lit:97.not.lit:10")
+            ops.append(f"gp w {txt(t + [10, c, c])} - g,p alt.str:{c},10.str:{c} seq.opt.lit:10.rep.cset:{c},97")
     for c in [0x8A, 0xFF, 0x0D, 0x0, 0x0B, 0x0C, 0x7F, 0x80]:
         for t in ([c], [c, 97], [97, c, 10, c]):
             ops.append(f"hist c {txt(t)} - g,p,g,p,g,p,s1,g,p,s0,p")
             ops.append(f"perr c {txt(t)} - g lit 97")
+    # 3b'. counters beyond one byte: a line of 600 characters, 300 lines, and both after rewinds
+    long_a = [97] * 600
+    many_nl = [10] * 300
+    mixed = [97] * 299 + [10] + [97] * 400 + [10] + [97] * 10
+    for kind in ("c", "w"):
+        for t in (long_a, many_nl, mixed):
+            n = len(t)
+            walk = ["p"] + ["g"] * 255 + ["p", "g", "p", "g", "p"] + ["g"] * (n - 257) + ["p", "g", "g", "p", "s1", "p", "g", "p", "s4", "g", "p", "s0", "p"]
+            ops.append(f"hist {kind} {txt(t)} - {','.join(walk)}")
+            ops.append(f"perr {kind} {txt(t + [98])} - {','.join(['g'] * n)} lit 97")
+            ops.append(f"gp {kind} {txt(t + [98])} - - eps seq.rep.cset:97,10.lit:97")
     yield Batch("special-chars", ops, note="newline look-alikes (low byte 0x0A in a wide character, CR, NEL, U+2028), 0, 0xFF, U+10FFFF")
+    # 3c. the clients of get_position / set_position: every combinator, every basic_stream call compared
+    core, wide = grammar_sets()
+    for kind in ("c", "w"):
+        ops = gx_ops(kind, core + wide, SKIPPERS, range(0, 6 if thorough else 4))
+        ops += gx_ops(kind, core, SKIPPERS_X + [SKIPPER_SPACE], range(0, 5 if thorough else 4))
+        ops += gx_ops(kind, core, SKIPPERS[:2], [6] if thorough else [])
+        if kind == "c" or thorough:
+            ops += gx_ops(kind, core, SKIPPERS, [4] if not thorough else [])
+            ops += gx_ops(kind, core[:60] if not thorough else core, SKIPPERS[:2], [5] if not thorough else [])
+        # failing buffers: every budget up to the text length
+        for fa in range(0, 4 if thorough else 3):
+            ops += gx_ops(kind, core, SKIPPERS[:2], range(fa, 4 if thorough else 3), fa=str(fa))
+        yield Batch(f"gram-{kind}", ops, exhaustive=True,
+                    note="alternative/optional/repetition/plus/not/fatal/sequence/string over every leaf and every pair, "
+                         "skipper repetitions; all texts, started at every index and after a failed read at the end; "
+                         "every get_char/get_position/set_position the combinators issue is compared with state bits and location")
+        # entry points on an istream that was read from before
+        ops = []
+        for g in core[::4]:
+            for L in range(0, 4 if thorough else 3):
+                for t in all_texts(L):
+                    for n in range(0, L + 2):
+                        ops.append(f"ge {kind} p {txt(t)} - {n} rep.lit:32 {g}")
+                        ops.append(f"ge {kind} g {txt(t)} - {n} rep.cset:32,9 {g}")
+                        ops.append(f"ge {kind} e {txt(t)} - {n} eps {g}")
+                    # failing buffers: every budget, with and without a direct read before
+                    for fa in range(0, L + 1):
+                        for n in (0, 1):
+                            ops.append(f"ge {kind} p {txt(t)} {fa} {n} eps {g}")
+                            ops.append(f"ge {kind} g {txt(t)} {fa} {n} rep.cset:32,9 {g}")
+        yield Batch(f"entry-{kind}", ops, exhaustive=True,
+                    note="phrase_parse_stream / parse_stream / grammar_parse_stream on small texts after n direct reads")
+    # 3d. position / location values: == on all ordered pairs (same object included), <<
+    vals = [f"{o}@{l}" for o in (0, 1, 2, 10) for l in ("-", "1:1", "1:2", "2:1", "2:2", "12:345")]
+    ops = []
+    for kind in ("c", "w"):
+        ops += [f"poseq {kind} {a} {b}" for a in vals for b in vals]
+        ops += [f"posout {kind} {a}" for a in vals]
+    yield Batch("pos-values", ops, exhaustive=True,
+                note="operator== of position and location on all ordered pairs of a small set, operator<< of both")
+    # 3e. random grammars on random texts after random histories
+    r = rng.fork("gram")
+    for kind in ("c", "w"):
+        ops = []
+        for _ in range(12000 if thorough else 2500):
+            t = rand_text(r, kind, 12)
+            fa = "-" if r.chance(3, 4) else str(r.below(len(t) + 2))
+            pre = []
+            npos = 0
+            for _ in range(r.range(0, 6)):
+                q = r.below(10)
+                if q < 5:
+                    pre.append("g")
+                elif q < 8 or npos == 0:
+                    pre.append("p")
+                    npos += 1
+                else:
+                    pre.append(f"s{r.below(npos)}")
+            if r.chance(1, 4):
+                pre += ["g"] * (len(t) + 1)
+            ops.append(f"gp {kind} {txt(t)} {fa} {','.join(pre) if pre else '-'} {rand_skipper(r)} {rand_grammar(r, r.range(1, 4))}")
+        yield Batch(f"gram-rand-{kind}", ops, note="random well-formed grammars / skippers on random texts after random histories")
     # 4. seeded long histories
     r = rng.fork("hist")
     ncase = 4000 if thorough else 800
@@ -309,9 +537,17 @@ MANIFEST = {
                    "saved position reproduces the exact stream state in which it was taken, hence all later reads and positions "
                    "(rewind_exact, rewind_exact_hist); end of input and a bad stream never yield a character (eof_never_char, "
                    "bad_never_char, failing_read_never_char, parse_bad_fails); literal/char_set errors carry the location after "
-                   "the offending character (expected_location). Tied to the code by a differential correspondence that is "
+                   "the offending character (expected_location). Every client of get_position/set_position (alternative, optional, "
+                   "repetition, repetition_plus, not_, fatal, sequence, basic_string, skipper repetition/sequence) refines the PEG "
+                   "semantics on a bare index call by call, from every state reached by reads, saves, rewinds and earlier parses "
+                   "(combinators_refine_peg), returns for every well-formed grammar (wellformed_returns), backtracks to exactly the "
+                   "saved stream state (not_/optional_restores_exactly, saved_position_survives_parse) and keeps the stored location "
+                   "true after every single call on every stream, failing ones included (combinators_keep_location, "
+                   "location_inv_with_parses). Tied to the code by a differential correspondence that is "
                    "exhaustive over all texts up to length 12 over {a,\\n,space,tab} (thorough; 9 quick) and over all op sequences "
-                   "up to length 7/8 on small texts, for char and wchar_t, plus seeded long histories."),
+                   "up to length 7/8 on small texts, for char and wchar_t, plus seeded long histories; the combinators by 414 "
+                   "systematic grammars on all texts up to length 3-5 (5-6 thorough) from every start index, every basic_stream call "
+                   "compared."),
     "level_note": ("Trusted: Lean kernel + propext/Quot.sound; the istream sub-model is an assumption about libstdc++ validated by "
                    "comparing rdstate() after every operation; fidelity of the hand-written model outside the exercised inputs; the "
                    "harness (its streambuf, message-number extraction) and the digest protocol. No sorry/axiom/native_decide."),
